@@ -94,6 +94,7 @@ type PJob struct {
 	MaxViol  int      `json:"max_viol"`
 	RefSigs  bool     `json:"ref_sigs"`
 	RefOnly  bool     `json:"ref_only"`
+	Thorough bool     `json:"thorough"`
 	Skip     []int    `json:"skip,omitempty"`
 	Plain    bool     `json:"-"` // run on the unwoven runner
 	Env      []string `json:"-"` // extra environment of the worker process
@@ -538,6 +539,7 @@ func (rig *parsimRig) runJob(job *PJob, race bool, timeout time.Duration) (*PJob
 	n := rig.jobSeq
 	rig.mu.Unlock()
 	job.Workload = rig.workload
+	job.Thorough = rig.env.Tier == "thorough"
 	jp := rig.sc.Path(fmt.Sprintf("job-%d.json", n))
 	op := rig.sc.Path(fmt.Sprintf("out-%d.json", n))
 	b, _ := json.Marshal(job)
